@@ -105,6 +105,11 @@ pub fn gen(seed: u64, tier: Tier, k: u64) -> Value {
     if k < 10 {
         return json!({"mode": "find-exhaustive", "first": k});
     }
+    if k % 40 == 11 {
+        // a store sorted ON a deferred reference (position of the parent, rank): the writer must iterate its sort until
+        // the order is stable; what is read back must be non-decreasing in the stored key values
+        return crate::c15::gen_sort_on_ref(seed ^ 0x03, k);
+    }
     let mut rng = Rng::keyed(seed, "C03", k);
     let quick_prefixes = [0u8, 1, 2, 3, 8, 31];
     let prefix = match tier {
@@ -248,6 +253,9 @@ fn neighbours(key: &[Val], rng: &mut Rng) -> Vec<Vec<Val>> {
 pub fn run(desc: &Value, ctx: &Ctx) -> CaseOut {
     if jstr(desc, "mode") == "find-exhaustive" {
         return run_find_exhaustive(desc);
+    }
+    if jstr(desc, "mode") == "sort-on-ref" {
+        return crate::c15::run_sort_on_ref(desc, "C03");
     }
     let mut out = CaseOut::new();
     let case = DirCase::from_json(desc);
